@@ -1,6 +1,7 @@
 package sim
 
 import (
+	"berty.tech/go-orbit-db/accesscontroller"
 	"fmt"
 	"sort"
 	"strings"
@@ -13,7 +14,7 @@ import (
 
 func init() {
 	Register(&Scenario{Prop: "C14", Name: "addresses", Run: scenC14, SoftParks: true, Weight: 1,
-		Rule: "2-3 peers with distinct identities and separate block stores; 3-8 (thorough 3-16) databases whose names come from a segment grammar {ascii, unicode, space, empty, '.', '..', nested, dotted, CID-looking segments of addresses created earlier in the same run}, any registered type, explicit write lists or the creator default; for every input DetermineAddress on every peer, address.Parse(String()) round trip, pairwise distinctness of addresses of distinct inputs; Create on one peer and Open on another through the simulated exchange under delay, loss until heal, or a virtual-time timeout: Open fails or yields the creation type and write list; Create over an existing local database (also after a restart, and after an overwriting Create that failed half-way under local read errors) must be refused without Overwrite and the database must still open LocalOnly; Open(LocalOnly) of an unknown database must be refused; non-trivial = >=3 accepted names, >=1 remote open that succeeded and >=1 name with a special segment"})
+		Rule: "2-3 peers with distinct identities and separate block stores; 3-8 (thorough 3-16) databases whose names come from a segment grammar {ascii, unicode, space, empty, '.', '..', nested, dotted, CID-looking segments of addresses created earlier in the same run}, any registered type, explicit write lists or the creator default; for every input DetermineAddress on every peer, address.Parse(String()) round trip, pairwise distinctness of addresses of distinct inputs; Create on one peer and Open on another through the simulated exchange under delay, loss until heal, or a virtual-time timeout: Open fails or yields the creation type and write list; Create over an existing local database (also after a restart, and after an overwriting Create that failed half-way under local read errors) must be refused without Overwrite and the database must still open LocalOnly; Open(LocalOnly) of an unknown database must be refused; in half of the runs two databases with different write lists are finally opened at the same time on a fresh peer by two calls sharing one options value, each having to come back with its own type and write list; non-trivial = >=3 accepted names, >=1 remote open that succeeded and >=1 name with a special segment"})
 }
 
 type c14input struct {
@@ -87,6 +88,7 @@ func scenC14(k *K) {
 	}
 	var inputs []*c14input
 	accepted, specials, remoteOK := 0, 0, 0
+	var created []*c14input
 	ndb := k.C.Range(3, 8)
 	if Tier == "thorough" {
 		ndb = k.C.Range(3, 16)
@@ -226,6 +228,7 @@ func scenC14(k *K) {
 			k.Failf("C14/create-address", "Create(%q) returned address %s, DetermineAddress said %s", name, st.Address().String(), in.addr)
 		}
 		c14CheckStore(k, "creator", st, in)
+		created = append(created, in)
 		// create again: refused without overwrite (store closed first so only the local marker decides)
 		if k.C.Chance(1, 2) {
 			k.Do(by, "close-store", 50, func() (interface{}, error) { return nil, st.Close() })
@@ -372,6 +375,47 @@ func scenC14(k *K) {
 			rst := op.Val.(iface.Store)
 			c14CheckStore(k, fmt.Sprintf("n%d after remote open", other), rst, in)
 			k.Do(other, "close-store", 50, func() (interface{}, error) { return nil, rst.Close() })
+		}
+	}
+	// two databases with different write lists opened at the same time on a fresh peer, the two
+	// calls sharing one options value (and thus one access-controller parameter object)
+	if len(created) >= 2 && k.C.Chance(1, 2) {
+		a := created[k.C.Intn(len(created))]
+		b := created[k.C.Intn(len(created))]
+		if a.addr != b.addr && fmt.Sprint(a.write) != fmt.Sprint(b.write) {
+			for x := 0; x < np; x++ {
+				for y := x + 1; y < np; y++ {
+					k.Heal(x, y)
+				}
+			}
+			z, err := k.StartPeer(k.W.AddNode())
+			if err != nil {
+				panic(abortPanic{err.Error()})
+			}
+			shared := &orbitdb.CreateDBOptions{AccessController: accesscontroller.NewEmptyManifestParams()}
+			oa := k.Go(z.Node.Idx, "open-shared-options "+short(a.addr), func() (interface{}, error) {
+				ctx, cancel := OpCtx(10 * time.Minute)
+				defer cancel()
+				return z.DB.Open(ctx, a.addr, shared)
+			})
+			ob := k.Go(z.Node.Idx, "open-shared-options "+short(b.addr), func() (interface{}, error) {
+				ctx, cancel := OpCtx(10 * time.Minute)
+				defer cancel()
+				return z.DB.Open(ctx, b.addr, shared)
+			})
+			saved := k.F
+			k.F = BenignCfg()
+			k.F.ServeAny, k.F.Burst = 3, 2
+			for j := 0; j < 600 && !(k.IsDone(oa) && k.IsDone(ob)); j++ {
+				k.Step()
+			}
+			k.F = saved
+			if k.IsDone(oa) && k.IsDone(ob) && oa.Err == nil && ob.Err == nil {
+				c14CheckStore(k, "fresh peer, concurrent open with shared options", oa.Val.(iface.Store), a)
+				c14CheckStore(k, "fresh peer, concurrent open with shared options", ob.Val.(iface.Store), b)
+				k.W.Stat("concurrent-opens-sharing-options")
+			}
+			k.StopPeer(z)
 		}
 	}
 	k.Notes["accepted_names"] = accepted
